@@ -91,7 +91,12 @@ def worker(ctx):
         if ctx.replay is not None:
             case_id = ctx.replay["witness"]["case"]
             rng = __import__("random").Random(f"{ctx.replay['seed']}:C15:{ctx.replay['witness']['shard']}:case:{case_id}")
-        root = gen.gen_schema(rng, cfg_for(rng, case_id))
+        cfg = cfg_for(rng, case_id)
+        if case_id % 4 == 2:
+            cfg.p_same_short_name = 0.6
+        root = gen.gen_schema(rng, cfg)
+        if case_id % 6 == 1:
+            gen.add_same_name_shapes(root, rng, ext_ok=cfg.extensible)
         top = ctx.casedir(case_id)
         wit = {"case": case_id, "shard": ctx.shard}
         try:
